@@ -861,6 +861,12 @@ func c08Tags(c c08Case, o c08Obs) []string {
 
 	if o.A.Kind != o.B.Kind || o.A.Rule != o.B.Rule {
 		tags = append(tags, "c08:pair-differs")
+	} else if c.Raw != c.Raw2 && o.A.Kind == "accepted" && o.A.Rule != "default" {
+		tags = append(tags, "c08:re-encoded-same-rule")
+
+		if len(o.A.Caps) > 0 {
+			tags = append(tags, "c08:re-encoded-same-rule-with-captures")
+		}
 	}
 
 	for _, r := range c.Rules {
@@ -902,6 +908,17 @@ func c08Corpus() []c08Case {
 		// C08-F4: a byte net/url does not accept in a raw path makes EscapedPath re-encode: the encoded slash is decoded before any check
 		{Rules: []c08Rule{one("w", "off", up, lit("a"), lit("b\""))}, Host: "h", Raw: "/a%2Fb\"", Raw2: "/a%2Fb\""},
 		{Rules: []c08Rule{one("w", "no_decode", up, all("r0"))}, Host: "h", Raw: "/a%2Fb^", Raw2: "/a%2Fb^"},
+		// C08-F4 as in C08_F4_off_refuted: wildcard rule, default rule configured
+		{Rules: []c08Rule{one("w", "off", up, wild("x"), wild("y"))}, Default: true, Host: "h", Raw: "/a%2Fb\"", Raw2: "/a%2Fb\""},
+		// the witnesses of C08_F2_nodecode_refuted / C08_nodecode_on_nonvacuous
+		{Rules: []c08Rule{one("nd", "no_decode", up, lit("files"), all("rest"))}, Host: "h", Raw: "/files/a%2fb", Raw2: "/files/a%2Fb/c%20d"},
+		{Rules: []c08Rule{one("on", "on", up, lit("files"), all("rest"))}, Host: "h", Raw: "/files/a%2fb", Raw2: "/files/a%2Fb/c%20d"},
+		// C08_reencoding_invariant_nonvacuous
+		{Rules: []c08Rule{{ID: "users", Setting: "no_decode", Backend: up, Routes: []c08Route{{Pat: []c08Seg{lit("api"), lit("users"), wild("id")}, Params: [][2]string{{"id", "j%2Fd"}}}}},
+			one("any", "on", up, lit("api"), all("rest"))}, Host: "h", Raw: "/api/users/j%2Fd", Raw2: "/api/users/%6A%2F%64"},
+		// the asterisk form and targets net/http refuses
+		{Rules: []c08Rule{one("w", "on", up, wild("p0"))}, Default: true, Host: "h", Raw: "*", Raw2: "*"},
+		{Rules: []c08Rule{one("w", "on", up, wild("p0"))}, Default: true, Host: "h", Raw: "*", Raw2: "x", Query: "a=1"},
 		// C08-F5: the literal placeholder text turns into %2F in the captured value
 		{Rules: []c08Rule{one("w", "off", up, wild("p0"))}, Host: "h", Raw: "/x$$$escaped-slash$$$y", Raw2: "/x$$$escaped-slash$$$y"},
 		// no_decode / on with a catch-all and a rewrite
